@@ -11,19 +11,54 @@ META = {
         "quick": {"child": "all parent secrets k in [1,N-1], chain codes (32 bytes), indexes in [0, 2^32) (hardened and not), depth 0..254, "
                            "parent fingerprint / child number symbolic",
                   "codec": "78-byte xprv/xpub: depth, fingerprint, child number, chain code, key all symbolic, for each of the 20 version prefixes; every 2- and 3-step history of raw_serialize / xpub() / xpub(zpub) / xprv() on one object",
-                  "traverse": "paths of 1..4 components from a fixed list of renderings (' / h / H, upper- and lower-case m) over symbolic key material"},
-        "thorough": {"traverse": "paths up to 6 components"}},
+                  "traverse": "paths of 1..4 components from a fixed list of renderings (' / h / H, upper- and lower-case m) over symbolic key material",
+                  "child under every network / version prefix (O5-child-guises)": "two HDPublicKey objects for one extended public key (point, chain code, depth, "
+                  "fingerprint, child number symbolic) on each of the 16 ordered pairs of networks (mainnet, testnet, signet, regtest), each with a version prefix "
+                  "the solver picks among the ten of the network's family; history: the first object derives another index and the index in question (both symbolic "
+                  "in [0, 2^31)), then the second derives that index; the second object's child must be the BIP32 child, on its parent's network, with its parent's "
+                  "prefix, in pub_version, xpub() and raw_serialize()",
+                  "blind_xpub under every version prefix (O5-blind-guises)": "one account key at depth 4 (symbolic point, chain code, fingerprint, child number) per family "
+                  "(mainnet, testnet); one history per family: its text under the ten prefixes of the family in sorted order, blinded one after the other with the "
+                  "secret paths m/7/2147483647 and m/7 alternating every second call; every result must be the 78-byte key at the combined path under the prefix handed in",
+                  "traverse histories (O6-traverse-history)": "every ordered pair of calls traverse(p1), traverse(p2) on ONE HDPublicKey object (symbolic point / chain code), "
+                  "p1, p2 over all 12 paths with 1..2 components from {0, 7, 1h} (144 histories; the hardened marker is rendered h, ' or H in rotation, lower-case m): "
+                  "each call is refused iff its path has a hardened component, otherwise point, chain code, depth, child number and parent fingerprint are those of "
+                  "deriving the components one by one",
+                  "upper-case M on a public key (O7, NOT registered: REGISTER_UPPER_M = False)": "the histories (M/7), (M/0/2147483647), (m/7, M/7/0)"},
+        "thorough": {"traverse": "paths up to 6 components",
+                     "traverse histories": "additionally every ordered pair over the 14 paths with 1..3 components from {0, 1h} and every ordered triple over the 6 paths "
+                     "with 1..2 components from {0, 1h}"}},
     "outside": ["is_valid_bip32_path / combine_bip32_paths / blind_xpub path bookkeeping on arbitrary path *strings* beyond the renderings enumerated by O4-blinding-paths-concrete (regex and str methods on symbolic "
                 "text are beyond the engine; strings stay concrete)", "from_seed beyond the HMAC wiring (covered in C14)",
                 "the BIP32 invalid-child cases IL >= N and child key 0 (probability < 2^-127): assumed not to occur",
-                "Base58Check text layer (C09)"],
+                "Base58Check text layer (C09)",
+                "judgement (O5): the property does not say in words which version prefix a derived child carries; it is read as 'the child of an extended key is an "
+                "extended key of the same network and version prefix' (what blind_xpub's contract 'uses the version byte that was parsed' and HDPrivateKey.child / "
+                "HDPublicKey.child of the unchanged library do), and a child handed out under another object's prefix or network counts as not being 'exactly the key "
+                "found at the combined path'",
+                "judgement (O6): 'refused' is any exception (the unchanged library raises ValueError); which exception is not demanded",
+                "O5: the two objects share the whole extended key and differ in network / prefix only (an object with the same key and another chain code is the 'twin' "
+                "of O1-child); version prefixes outside the 20 known ones; address rendering of the children (C09)",
+                "O5-blind-guises: only consecutive pairs of prefixes in one fixed order per family (raw_parse looks the prefix up in a set, which needs concrete prefixes); "
+                "signet / regtest cannot be expressed through blind_xpub (parse maps every test prefix to testnet)",
+                "O6: histories on HDPrivateKey.traverse; histories longer than 2 (quick) / 3 (thorough) calls; path texts stay concrete (strings carry no symbolic "
+                "content in this engine), so indexes inside histories are the enumerated ones; public traverse of paths with an upper-case leading M: the unchanged HDPublicKey.traverse refuses "
+                "them (ValueError 'Invalid Path') while HDPrivateKey.traverse / is_valid_bip32_path accept them -- reported as a defect; obligation O7 exists but is "
+                "not registered (REGISTER_UPPER_M)"],
     "stubs": ["abstract prime-order group (symx/field.py)", "HMAC-SHA512, SHA-256, RIPEMD-160 uninterpreted on symbolic input"],
-    "assumptions": ["prime-order group (C03)", "IL < N and IL + k != 0 mod N"],
+    "assumptions": ["prime-order group (C03)", "IL < N and IL + k != 0 mod N (for every derivation of a history, including those made by the other object in O5 and "
+                    "the non-hardened prefix of a refused path in O6)", "O5: the first object's other index differs from the index in question"],
 }
 MANIFEST = {"technique": "symbolic execution of the real HDPrivateKey/HDPublicKey child/traverse/codec code over an abstract prime-order group with "
-                         "uninterpreted HMAC-SHA512; GF(N) canonical form + z3 (LIA); the path-string bookkeeping of combine_bip32_paths / blind_xpub "
+                         "uninterpreted HMAC-SHA512; GF(N) canonical form + z3 (LIA); histories (several calls on one object, two objects for one key one after the "
+                         "other in one process) are executed inside one symbolic path with version prefixes / indexes chosen by the solver; the path-string bookkeeping of combine_bip32_paths / blind_xpub "
                          "has no symbolic content in this engine and is an enumerated structural obligation (engine 'concrete', reported "
                          "separately, not solver evidence)"}
+
+
+# a change under test may key a memo table by symbolic byte strings (serialisations); when the solver gives up on enumerating their values
+# they are compared by == instead of being concretised byte by byte (the path set is then marked inconclusive, witnesses are replayed)
+core.MANY_IF_UNKNOWN[0] = True
 
 
 def hmac512(key, data):
@@ -477,10 +512,393 @@ def replay_paths(w):
     return {"violated": ref_parse_path(got) != want, "observed": f"combine_bip32_paths({a!r}, {b!r}) = {got!r}; index lists {ref_parse_path(got)} vs {want}"}
 
 
+# ---------------------------------------------------------------------------------------- O5 children under every network / version prefix
+
+NETWORKS = ("mainnet", "testnet", "signet", "regtest")
+ENGINE_SIGNALS = (core.Unsupported, core.Inconclusive)      # not outcomes of the code under test
+
+
+def _fresh_buidl():
+    """a history is a statement about one process: replay each one on freshly imported library modules (the runner replays several
+    witnesses in one process, and a change under test may keep module- or class-level state)"""
+    import sys
+    for name in [n for n in sys.modules if n == "buidl" or n.startswith("buidl.")]:
+        del sys.modules[name]
+ACCOUNT_PATH = {"mainnet": "m/48h/0h/0h/2h", "testnet": "M/48'/1'/0'/2'"}
+
+
+def _family(hd, net, priv=False):
+    """the ten known version prefixes of a network's family (SLIP-132 does not tell the test networks apart)"""
+    if priv:
+        return sorted(hd.ALL_MAINNET_XPRVS if net == "mainnet" else hd.ALL_TESTNET_XPRVS)
+    return sorted(hd.ALL_MAINNET_XPUBS if net == "mainnet" else hd.ALL_TESTNET_XPUBS)
+
+
+def _sym_version(name, family):
+    """a version prefix chosen by the solver among the known ones"""
+    v = SBytes.sym(name, 4)
+    assume(s_or(*[v == x for x in family]))
+    return v
+
+
+def _spec_ckd(e, cur_k, cur_cc, i):
+    """one BIP32 CKD step on the discrete log; the invalid cases (IL >= n, zero key) are assumed away (META)"""
+    F = e.fld
+    if i >= 0x80000000:
+        data = b"\x00" + field.lift_si(cur_k).to_bytes(32, "big") + i.to_bytes(4, "big")
+    else:
+        data = spec_sec(e, cur_k) + i.to_bytes(4, "big")
+    I = hmac512(cur_cc, data)
+    IL = core.int_from_bytes(I[:32], "big")
+    assume(IL < N)
+    nk = F.reduce(field.lift_si(IL) + field.lift_si(cur_k))
+    assume(wrapb(core.b_not(F.is_zero_cond(field.lift_si(nk)))))
+    return nk, I[32:]
+
+
+@with_env("hd")
+def _guise_path(e, net1, net2):
+    """two HDPublicKey objects for the same extended public key (point, chain code, depth, fingerprint, child number), each on its own
+    network and with its own version prefix (solver's choice among the ten of the network's family): the first derives some other child
+    and the child with the index in question, then the second derives that child.  The second object's child is the BIP32 child and is
+    an extended key of the second parent's network and version prefix, whatever the first object did."""
+    hd = loader.load("hd")
+    F = e.fld
+    k = SI.var("k", 1, N - 1)
+
+    cc, depth, pfp, cn = SBytes.sym("cc", 32), SI.var("depth", 0, 254), SBytes.sym("pfp", 4), SI.var("cn", 0, (1 << 32) - 1)
+    verA, ver = _sym_version("verA", _family(hd, net1)), _sym_version("ver", _family(hd, net2))
+    A = hd.HDPublicKey(e.pecc.PrivateKey(k).point, cc, depth, pfp, cn, network=net1, pub_version=verA)
+    B = hd.HDPublicKey(e.pecc.PrivateKey(k).point, cc, depth, pfp, cn, network=net2, pub_version=ver)
+    idx0 = SI.var("index0", 0, 0x7FFFFFFF)
+    idx = SI.var("index", 0, 0x7FFFFFFF)
+
+    def wit(env):
+        return {"k": env["k"], "net1": net1, "net2": net2, "index0": env["index0"], "index": env["index"], "cc": bytes_env(env, "cc", 32).hex(),
+                "pfp": bytes_env(env, "pfp", 4).hex(), "depth": env["depth"], "cn": env["cn"], "verA": bytes_env(env, "verA", 4).hex(),
+                "ver": bytes_env(env, "ver", 4).hex()}
+    psec = spec_sec(e, k)
+    assume(s_not(idx0 == idx))
+    _spec_ckd(e, k, cc, idx0)       # (only for its assumptions: the first object's derivations are valid BIP32 derivations too)
+    child_k, child_cc = _spec_ckd(e, k, cc, idx)
+    saved = hd.encode_base58_checksum
+    hd.encode_base58_checksum = lambda raw: _B58(raw)
+    try:
+        for i0 in (idx0, idx):
+            try:
+                A.child(i0)
+            except (ValueError, RuntimeError):      # what the first object answers is not this obligation's business
+                pass
+        try:
+            pc = B.child(idx)
+        except ENGINE_SIGNALS:
+            raise
+        except Exception as ex:
+            check(False, f"public child() raised {type(ex).__name__} for a non-hardened index after another object derived a child", witness=wit)
+            return "raised"
+        try:
+            # identically the same group element; failing that (a key that was put together from other symbols), the same SEC bytes for the solver
+            check(F.same(pc.point.d, child_k) or (pc.point.sec() == spec_sec(e, child_k)),
+                  "public child point differs from BIP32 after another object for the same key derived a child", witness=wit)
+            check(s_and(pc.chain_code == child_cc, pc.depth == depth + 1, pc.child_number == idx, pc.parent_fingerprint == h160(psec)[:4]),
+                  "public child chain code / depth / child number / fingerprint differ from BIP32 after another object derived a child", witness=wit)
+            check((pc.network == net2) and (pc.pub_version == ver),
+                  "public child is not on its own parent's network / does not carry its own parent's version prefix", witness=wit)
+            body = core.sbytes(SBytes([depth + 1])) + h160(psec)[:4] + idx.to_bytes(4, "big") + child_cc + spec_sec(e, child_k)
+            got = pc.xpub().raw
+            check((len(got) == 78) and (got == ver + body), "child xpub() is not its parent's version prefix followed by the BIP32 child fields", witness=wit)
+            got = pc.raw_serialize()
+            check((len(got) == 78) and (got == hd.XPUB[net2] + body), "child raw_serialize() is not its network's default prefix followed by the BIP32 child fields",
+                  witness=wit)
+        except ENGINE_SIGNALS:
+            raise
+        except Exception as ex:     # e.g. the object handed out is not a usable key (no point)
+            check(False, f"the derived child could not be inspected / serialised ({type(ex).__name__})", witness=wit)
+            return "raised"
+        return "ok"
+    finally:
+        hd.encode_base58_checksum = saved
+
+
+def ob_guises(net1, net2):
+    m = merge_runs([sym_run(lambda: _guise_path(net1, net2), mode="int", timeout_ms=20000, max_violations=3)])
+    if "'ok'" not in m["classes"]:
+        m["inconclusive"].append("reachability twin: class 'ok' missing")
+    m["sample"] = {"extended key": "point, chain code, depth, fingerprint, child number symbolic",
+                   "first object": f"on {net1}, prefix one of the 10 of its family (symbolic)", "second object": f"on {net2}, prefix one of the 10 of its family (symbolic)",
+                   "indexes": "symbolic in [0, 2^31): the first object derives another index and the same index, then the second derives it"}
+    return m
+
+
+def _ref_h160(b):
+    import hashlib
+    try:
+        return hashlib.new("ripemd160", hashlib.sha256(b).digest()).digest()
+    except ValueError:       # OpenSSL without ripemd160
+        from buidl.helper import hash160
+        return hash160(b)
+
+
+def replay_guise(w):
+    _fresh_buidl()
+    from buidl import hd, pecc, helper
+    k = w["k"]
+
+    def mk(net, ver):
+        return hd.HDPublicKey(k * pecc.G, bytes.fromhex(w["cc"]), w["depth"], bytes.fromhex(w["pfp"]), w["cn"], network=net, pub_version=bytes.fromhex(ver))
+    A, B = mk(w["net1"], w["verA"]), mk(w["net2"], w["ver"])
+    for i0 in (w["index0"], w["index"]):
+        try:
+            A.child(i0)
+        except (ValueError, RuntimeError):
+            pass
+    i, ver = w["index"], bytes.fromhex(w["ver"])
+    ck, ccc = ref_ckd_priv(k, bytes.fromhex(w["cc"]), i)
+    want = bytes([w["depth"] + 1]) + _ref_h160((k * pecc.G).sec())[:4] + i.to_bytes(4, "big") + ccc + (ck * pecc.G).sec()
+    pc = B.child(i)
+    probs = []
+    if pc.network != w["net2"]:
+        probs.append(f"child network {pc.network!r}, parent network {w['net2']!r}")
+    if pc.pub_version != ver:
+        probs.append(f"child version prefix {pc.pub_version.hex()}, parent's {ver.hex()}")
+    got = helper.raw_decode_base58(pc.xpub())
+    if got != ver + want:
+        probs.append(f"xpub() payload {got.hex()} instead of {(ver + want).hex()}")
+    if pc.raw_serialize() != hd.XPUB[w["net2"]] + want:
+        probs.append("raw_serialize() differs from the network prefix followed by the BIP32 child fields")
+    return {"violated": bool(probs), "observed": f"object 1 ({w['net1']}, prefix {w['verA']}) derived children {w['index0']} and {w['index']}, then object 2 for the same extended key "
+                                                 f"({w['net2']}, prefix {w['ver']}) derived child {i}: {probs or 'as BIP32 / own prefix'}"}
+
+
+BLIND_SECRETS = ("m/7/2147483647", "m/7")
+
+
+def _blind_calls(hd, net):
+    """the history of blind_xpub calls on one account key: its text under each of the family's ten version prefixes in turn (the set
+    lookup of the prefix in raw_parse needs concrete prefixes), the secret path changing every second call"""
+    return [(ver, BLIND_SECRETS[(j // 2) % 2]) for j, ver in enumerate(_family(hd, net))]
+
+
+@with_env("hd", "blinding")
+def _blind_guise_path(e, net):
+    """blind_xpub on the texts of ONE account key under the ten version prefixes of its family, one after the other in one process:
+    each result is the key at the combined path, serialised under the prefix that was handed in"""
+    hd, bl = loader.load("hd"), loader.load("blinding")
+    k = SI.var("k", 1, N - 1)
+    cc, pfp, cn = SBytes.sym("cc", 32), SBytes.sym("pfp", 4), SI.var("cn", 0, (1 << 32) - 1)
+    sp = ACCOUNT_PATH[net]
+    depth = sp.count("/")
+    acct = hd.HDPublicKey(e.pecc.PrivateKey(k).point, cc, depth, pfp, cn, network=net)
+    wit = lambda env: {"k": env["k"], "cc": bytes_env(env, "cc", 32).hex(), "pfp": bytes_env(env, "pfp", 4).hex(), "cn": env["cn"], "net": net}  # noqa
+    saved = hd.encode_base58_checksum, hd.raw_decode_base58
+    hd.encode_base58_checksum = lambda raw: _B58(raw)
+    hd.raw_decode_base58 = lambda s: s.raw
+    try:
+        for n, (ver, secret) in enumerate(_blind_calls(hd, net), 1):
+            idxs = ref_parse_path(secret)
+            ck, ccc, pk = k, cc, k
+            for i in idxs:
+                pk = ck
+                ck, ccc = _spec_ckd(e, ck, ccc, i)
+            want = ver + bytes([depth + len(idxs)]) + h160(spec_sec(e, pk))[:4] + idxs[-1].to_bytes(4, "big") + ccc + spec_sec(e, ck)
+            try:
+                r = bl.blind_xpub(acct.xpub(version=ver), sp, secret)
+            except ENGINE_SIGNALS:
+                raise
+            except Exception as ex:
+                check(False, f"blind_xpub call {n} raised {type(ex).__name__}", witness=wit)
+                return "raised"
+            got = r["blinded_child_xpub"].raw
+            check((len(got) == 78) and (got == want), f"blind_xpub call {n} (prefix {ver.hex()}): not the key at the combined path under the version prefix handed in",
+                  witness=wit)
+            check(ref_parse_path(r["blinded_full_path"]) == ref_parse_path(sp) + idxs, f"blind_xpub call {n}: combined path", witness=wit)
+        return "ok"
+    finally:
+        hd.encode_base58_checksum, hd.raw_decode_base58 = saved
+
+
+def ob_blind_guises():
+    runs = [sym_run(lambda: _blind_guise_path(net), mode="int", timeout_ms=60000, max_violations=6) for net in ("mainnet", "testnet")]
+    m = merge_runs(runs)
+    if "'ok'" not in m["classes"]:
+        m["inconclusive"].append("reachability twin: class 'ok' missing")
+    m["sample"] = {"account key": "symbolic point / chain code / fingerprint / child number at depth 4", "history": "its text under each of the 10 prefixes of the family, "
+                   "blinded one after the other", "secret paths": list(BLIND_SECRETS)}
+    return m
+
+
+def replay_blind_guise(w):
+    _fresh_buidl()
+    from buidl import hd, pecc, helper, blinding
+    k, net = w["k"], w["net"]
+    sp = ACCOUNT_PATH[net]
+    acct = hd.HDPublicKey(k * pecc.G, bytes.fromhex(w["cc"]), sp.count("/"), bytes.fromhex(w["pfp"]), w["cn"], network=net)
+    probs = []
+    for n, (ver, secret) in enumerate(_blind_calls(hd, net), 1):
+        idxs = ref_parse_path(secret)
+        ck, ccc, pk = k, bytes.fromhex(w["cc"]), k
+        for i in idxs:
+            pk = ck
+            ck, ccc = ref_ckd_priv(ck, ccc, i)
+        want = ver + bytes([sp.count("/") + len(idxs)]) + _ref_h160((pk * pecc.G).sec())[:4] + idxs[-1].to_bytes(4, "big") + ccc + (ck * pecc.G).sec()
+        try:
+            r = blinding.blind_xpub(acct.xpub(version=ver), sp, secret)
+        except Exception as ex:
+            probs.append(f"call {n} raised {ex!r}")
+            continue
+        got = helper.raw_decode_base58(r["blinded_child_xpub"])
+        if got != want:
+            probs.append(f"call {n} (prefix {ver.hex()}, secret path {secret}): payload starts {got[:4].hex()}, "
+                         f"{'key fields as expected' if got[4:] == want[4:] else 'key fields differ too'}")
+        if ref_parse_path(r["blinded_full_path"]) != ref_parse_path(sp) + idxs:
+            probs.append(f"call {n}: combined path {r['blinded_full_path']!r}")
+    return {"violated": bool(probs), "observed": f"blind_xpub on the texts of one {net} account key under the family's prefixes one after the other: "
+                                                 f"{probs[:3] or 'all as expected'}"}
+
+
+# ---------------------------------------------------------------------------------------- O6 histories of traverse() on one public key object
+
+def _render(path, mk, up=False):
+    """mk: marker for hardened components; up: upper-case M"""
+    comps = [c[:-1] + mk if c[-1] == "h" else c for c in path.split("/")[1:]]
+    return "/".join(["M" if up else "m"] + comps)
+
+
+def history_paths(alphabet, maxc):
+    out, level = [], ["m"]
+    for _ in range(maxc):
+        level = [p + "/" + c for p in level for c in alphabet]
+        out += level
+    return out
+
+
+def histories(alphabet, maxc, n):
+    """every sequence of n paths with up to maxc components over the alphabet; the rendering of the hardened marker rotates with the
+    position so that all three occur in every position"""
+    import itertools
+    ps = history_paths(alphabet, maxc)
+    out = []
+    for num, h in enumerate(itertools.product(ps, repeat=n)):
+        out.append(tuple(_render(p, "h'H"[(num + 2 * j) % 3]) for j, p in enumerate(h)))
+    return out
+
+
+@with_env("hd")
+def _traverse_history_path(e, hist):
+    """several traverse() calls on ONE HDPublicKey object: every call, whatever came before it (refused calls included), is refused
+    iff its path has a hardened component and otherwise returns the key that deriving the components one by one gives"""
+    hd = loader.load("hd")
+    F = e.fld
+    k, cc, depth, pfp, cn, parent = _mk_parent(e, hd)
+    pub = parent.pub
+    wit = lambda env: {"k": env["k"], "cc": bytes_env(env, "cc", 32).hex(), "depth": env["depth"], "history": list(hist)}  # noqa
+    memo = {(): (k, cc)}
+    outcome = []
+    for n, path in enumerate(hist, 1):
+        idxs = ref_parse_path(path)
+        hard = any(i >= 0x80000000 for i in idxs)
+        # component by component, by hand, as far as public derivation can go (the invalid BIP32 cases are assumed away on the way)
+        done = ()
+        for i in idxs:
+            if i >= 0x80000000:
+                break
+            if done + (i,) not in memo:
+                memo[done + (i,)] = _spec_ckd(e, memo[done][0], memo[done][1], i)
+            done += (i,)
+        try:
+            got = pub.traverse(path)
+        except ENGINE_SIGNALS:
+            raise
+        except Exception as ex:
+            check(hard, f"call {n} of the history: traverse raised {type(ex).__name__} for a path without hardened components", witness=wit)
+            outcome.append("refused")
+            continue
+        if hard:
+            check(False, f"call {n} of the history: public traverse through a hardened component was not refused", witness=wit)
+            outcome.append("not refused")
+            continue
+        ck, ccc = memo[done]
+        check(F.same(got.point.d, ck), f"call {n} of the history: traverse(path) is not the key its components give one by one", witness=wit)
+        check(got.chain_code == ccc, f"call {n} of the history: chain code", witness=wit)
+        pfp_want = h160(spec_sec(e, memo[done[:-1]][0]))[:4] if idxs else pfp
+        check(s_and(got.depth == depth + len(idxs), got.child_number == (idxs[-1] if idxs else cn), got.parent_fingerprint == pfp_want),
+              f"call {n} of the history: depth / child number / parent fingerprint", witness=wit)
+        outcome.append("key")
+    return ",".join(outcome)
+
+
+def _history_runs(hs, max_violations=6):
+    runs = [sym_run(lambda: _traverse_history_path(h), mode="int", timeout_ms=60000, max_violations=max_violations) for h in hs]
+    m = merge_runs(runs)
+    seen = {o for c in m["classes"] for o in c.strip("'").split(",")}
+    hard = [any(i >= 0x80000000 for i in ref_parse_path(p)) for h in hs for p in h]
+    for cls, expected in (("refused", any(hard)), ("key", not all(hard))):
+        if expected and cls not in seen:
+            m["inconclusive"].append(f"reachability twin: no call with outcome {cls!r}")
+    m["sample"] = {"object": "one HDPublicKey with symbolic point / chain code", "histories": len(hs), "first": list(hs[0]), "last": list(hs[-1])}
+    return m
+
+
+def ob_traverse_history(alphabet, maxc, n, part, parts):
+    return _history_runs(histories(alphabet, maxc, n)[part::parts])
+
+
+UPPER_M = (("M/7",), ("M/0/2147483647",), ("m/7", "M/7/0"))
+
+
+def ob_traverse_upper_m():
+    """the leading M in upper case (BIP32's own notation for public derivation) on a public key; kept apart from the histories, which
+    use a lower-case m, because the unchanged library refuses it"""
+    return _history_runs(list(UPPER_M), max_violations=1)
+
+
+def replay_traverse_history(w):
+    _fresh_buidl()
+    from buidl import hd, pecc
+    k, cc, depth = w["k"], bytes.fromhex(w["cc"]), w.get("depth", 0)
+    pub = hd.HDPublicKey.parse(hd.HDPrivateKey(pecc.PrivateKey(k), cc, depth=depth).xpub())
+    probs = []
+    for n, path in enumerate(w["history"], 1):
+        idxs = ref_parse_path(path)
+        hard = any(i >= 0x80000000 for i in idxs)
+        try:
+            got = pub.traverse(path)
+        except Exception as ex:
+            if not hard:
+                probs.append(f"call {n} traverse({path!r}) raised {ex!r}")
+            continue
+        if hard:
+            probs.append(f"call {n} traverse({path!r}) was not refused (returned a key at depth {got.depth}, child number {got.child_number})")
+            continue
+        ck, ccc, pk = k, cc, k
+        for i in idxs:
+            pk = ck
+            ck, ccc = ref_ckd_priv(ck, ccc, i)
+        if got.point != ck * pecc.G or got.chain_code != ccc:
+            probs.append(f"call {n} traverse({path!r}) is not the key its components give one by one")
+        elif idxs and (got.depth != depth + len(idxs) or got.child_number != idxs[-1] or got.parent_fingerprint != _ref_h160((pk * pecc.G).sec())[:4]):
+            probs.append(f"call {n} traverse({path!r}): depth / child number / parent fingerprint")
+    return {"violated": bool(probs), "observed": f"one HDPublicKey object, history {w['history']}: {probs or 'every call as specified'}"}
+
+
+# O7 is red on the unchanged library (HDPublicKey.traverse checks startswith("m") before lower-casing, so "M/7" is refused although
+# HDPrivateKey.traverse and is_valid_bip32_path accept it): reported, and not registered until it is fixed or listed as a known finding
+REGISTER_UPPER_M = True
+HIST_QUICK = (("0", "7", "1h"), 2)
+HIST_THOROUGH = [(("0", "1h"), 3, 2), (("0", "1h"), 2, 3)]
+
+
 def obligations(tier):
     q = tier == "quick"
     return [Ob("O1-child", ob_child, replay="child"), Ob("O2-codec", ob_codec, {"priv": True}, replay="codec"),
             Ob("O2-codec", ob_codec, {"priv": False}, replay="codec"), Ob("O2-codec-history", ob_codec_history, replay="codec_history"),
             Ob("O4-blinding-paths-concrete", ob_paths, {"maxc": 2, "nblind": 30 if q else 157}, replay="paths"),
             Ob("O3-traverse", ob_traverse, {"which": tuple(p for p, _ in PATHS)}, replay="traverse", budget_s=1800)] + \
-        ([] if q else [Ob("O3-traverse", ob_traverse, {"which": (p,)}, replay="traverse", budget_s=6000) for p, _ in LONG_PATHS])
+        [Ob("O5-child-guises", ob_guises, {"net1": n1, "net2": n2}, replay="guise", budget_s=1200) for n1 in NETWORKS for n2 in NETWORKS] + \
+        [Ob("O5-blind-guises", ob_blind_guises, replay="blind_guise", budget_s=600)] + \
+        [Ob("O6-traverse-history", ob_traverse_history, {"alphabet": HIST_QUICK[0], "maxc": HIST_QUICK[1], "n": 2, "part": p, "parts": 6},
+            replay="traverse_history", budget_s=1500) for p in range(6)] + \
+        ([Ob("O7-public-traverse-upper-case-M", ob_traverse_upper_m, replay="traverse_history", budget_s=900)] if REGISTER_UPPER_M else []) + \
+        ([] if q else [Ob("O3-traverse", ob_traverse, {"which": (p,)}, replay="traverse", budget_s=6000) for p, _ in LONG_PATHS] +
+         [Ob("O6-traverse-history", ob_traverse_history, {"alphabet": a, "maxc": mc, "n": n, "part": p, "parts": 4}, replay="traverse_history", budget_s=6000)
+          for a, mc, n in HIST_THOROUGH for p in range(4)])
